@@ -286,6 +286,10 @@ func (e mwEngine) Gen(t *rapid.T, tier string) any {
 					// (2^64 ns = 18446744073.7 s: where nanosecond arithmetic wraps around)
 					ev.CreatedAt = rapid.SampledFrom([]int64{now + 18446744073, now - 18446744073, now + 18446744073 + 600, now + 2*18446744073 + 1, now + 9223372036, now - 9223372037, math.MinInt64, math.MinInt64 + 1, math.MinInt64 + 1700000000, -1 << 62, -62135596801, -1, 0, 1 << 62, math.MaxInt64 - 62135596800, math.MaxInt64 - 1, math.MaxInt64}).Draw(t, "xts")
 				}
+				if e.prop == "C17" && rapid.IntRange(0, 4).Draw(t, "sameid") == 0 {
+					// different events under one id: a verdict belongs to the event, not to its id
+					ev.ForceID = strings.Repeat("5a", 32)
+				}
 				cl.Script = append(cl.Script, simrt.Op{Kind: "send", Msg: &simrt.Msg{T: "EVENT", Ev: &ev}})
 			case k == 10:
 				cl.Script = append(cl.Script, simrt.Op{Kind: "send", Msg: &simrt.Msg{T: "COUNT", Sub: rapid.SampledFrom(subs).Draw(t, "sub"), Filters: mkFilters()}})
